@@ -26,9 +26,11 @@ def make_specs(ctx: Ctx, n):
         label, prof = PROFILES[i % len(PROFILES)]
         m = gen.rand_model(rng, prof)
         na = rng.choice([3, 8, 16])
-        init = qinit(gen.rand_initial_states(rng, m, na))
+        int_init = i % 3 == 1
+        init = qinit(gen.rand_initial_states(rng, m, na, integer=int_init))
         target = "solve_and_simulate" if i % 2 else "simulate"
-        plan = [{"op": "simulate", "target": target, "init": init, "seed": rng.randrange(10**6), "vsrc": "own"}]
+        plan = [{"op": "simulate", "target": target, "init": init, "seed": rng.randrange(10**6), "vsrc": "own", "int_init": int_init}]
+        label = label + ("; integer-typed initial states" if int_init else "")
         specs.append(mk_spec(i, m, ["c03"], plan, label=label))
     return specs
 
